@@ -74,7 +74,7 @@ func runSolver(ctx context.Context, sp solverSpec, query string, timeoutS int, w
 var (
 	solveCache   = map[[32]byte]SolveResult{}
 	solveCacheMu sync.Mutex
-	solverSem    = make(chan struct{}, 24)
+	solverSem    = make(chan struct{}, 16)
 )
 
 // Solve races the portfolio: all solvers start together, the first definite
